@@ -133,7 +133,7 @@ func coreSenderScenario(c coreSenderCfg, bound int) *Scenario {
 }
 
 type coreReceiverCfg struct {
-	frames  []int  // sizes accepted in order
+	frames  []int // sizes accepted in order
 	window  int
 	closer  string // "" | close | cancel
 	nofc    bool
@@ -507,7 +507,7 @@ func c05Scenarios(tier string) []*Scenario {
 
 func init() {
 	register(&PropDef{ID: "C05", Level: "model_checking",
-		Rule: "(core) the real defaultSender/defaultReceiver driven through verif-only exported constructors: every interleaving (unbounded DFS for the small configurations, D<=3/4 for the larger ones) of a send with 0-2 updater threads and an optional canceller, resp. of accept / dequeue / close|cancel, at the granularity of every atomic, lock, condition and channel operation; oracle: never stranded (no hang when enough credit was delivered), bytes in order, chunks <= 16 KiB, window conserved, credit == consumed, FIFO; (tunnel) 1-3 streams carrying 2-3 windows each over carriers of capacity 1, 2, unbounded, forward and reverse, D<=1 (quick) / 2 (thorough) at frame/application granularity with the credit-conservation invariant evaluated at every idle quiescent point and completion required",
+		Rule:      "(core) the real defaultSender/defaultReceiver driven through verif-only exported constructors: every interleaving (unbounded DFS for the small configurations, D<=3/4 for the larger ones) of a send with 0-2 updater threads and an optional canceller, resp. of accept / dequeue / close|cancel, at the granularity of every atomic, lock, condition and channel operation; oracle: never stranded (no hang when enough credit was delivered), bytes in order, chunks <= 16 KiB, window conserved, credit == consumed, FIFO; (tunnel) 1-3 streams carrying 2-3 windows each over carriers of capacity 1, 2, unbounded, forward and reverse, D<=1 (quick) / 2 (thorough) at frame/application granularity with the credit-conservation invariant evaluated at every idle quiescent point and completion required",
 		Globals:   []func(*Scenario, *World, *Exec) []Violation{WinMonitor},
 		Scenarios: c05Scenarios})
 }
